@@ -49,7 +49,7 @@ class _Cap(logging.Handler):
             self.groups.append([int(m.group(1)), int(m.group(2))])
 
 
-def _run_one(bdf, chunks, symm, mb, mm, ensure_sorted, outdir, tag):
+def _run_one(bdf, chunks, symm, mb, mm, ensure_sorted, outdir, tag, nochecks=False):
     out = os.path.join(outdir, f"u-{tag}.cool")
     before = set(os.listdir(outdir))
     cap = _Cap()
@@ -59,8 +59,9 @@ def _run_one(bdf, chunks, symm, mb, mm, ensure_sorted, outdir, tag):
     lg.propagate = False
     lg.addHandler(cap)
     try:
+        kw = dict(boundscheck=False, triucheck=False, dupcheck=False) if nochecks else {}
         impl(cooler.create_cooler, out, bdf, (gen.pixels_df(c) for c in chunks), symmetric_upper=symm, ordered=False,
-             mergebuf=mb, max_merge=mm, ensure_sorted=ensure_sorted)
+             mergebuf=mb, max_merge=mm, ensure_sorted=ensure_sorted, **kw)
     finally:
         lg.removeHandler(cap)
         lg.setLevel(old[0])
@@ -85,12 +86,14 @@ def _unordered(case):
         assert m["model"] == m["spec"]
         k = len(chunks)
         nrec = sum(len(c) for c in chunks)
-        for mb, mm, es in case["params"]:
+        for prm in case["params"]:
+            mb, mm, es = prm[:3]
+            nochecks = len(prm) > 3 and prm[3]
             mm_eff = {"k": k, "k+1": k + 1}.get(mm, mm)
             use = [sorted(c) for c in chunks] if not es else chunks
-            got, info, leftover, groups, viol = _run_one(bdf, use, symm, mb, mm_eff, es, outdir, os.getpid())
+            got, info, leftover, groups, viol = _run_one(bdf, use, symm, mb, mm_eff, es, outdir, os.getpid(), nochecks)
             nruns += 1
-            ctx = {"chunks": chunks, "mergebuf": mb, "max_merge": mm_eff, "ensure_sorted": es}
+            ctx = {"chunks": chunks, "mergebuf": mb, "max_merge": mm_eff, "ensure_sorted": es, "checks_off": nochecks}
             if got != m["spec"]:
                 return {"mismatch": True, **ctx, "impl": got, "model": m["spec"]}
             if int(info["sum"]) != m["total"]:
@@ -214,8 +217,10 @@ def cases(tier, rng):
     # corpus: D7 (2-3 chunks, max_merge below) and D6 (empty epoch)
     yield "unordered", {"n": 3, "symm": True, "chunkings": [[[[0, 1, 1]], [[0, 1, 2], [1, 1, 1]]], [[[0, 1, 1]], [[1, 1, 2]], [[0, 1, 5]]]],
                         "params": [[2, 1, False], [1, 2, False], [5, 200, False]]}
-    for k in range(2, 12 if thorough else 8):
-        for mm in (1, 2, 3):
+    yield "unordered", {"n": 4, "symm": True, "chunkings": [[[[2, 3, 1], [0, 1, 2], [1, 1, 3], [0, 2, 4]], [[3, 3, 5], [0, 1, 6], [1, 2, 7]]]],
+                        "params": [[2, 200, True, True], [1, 1, True, True]]}
+    for k in range(2, 22 if thorough else 14):
+        for mm in ((1, 2, 3, 4) if thorough else (1, 2, 4)):
             if mm < k:
                 yield "edges", {"k": k, "max_merge": mm}
     for _ in range(80 if thorough else 16):
@@ -245,8 +250,10 @@ def cases(tier, rng):
             for c in p:
                 rng.shuffle(c)
             chunkings.append(p)
-        params = [[1, 200, False], [2, 1, False], [3, 2, True], [nrec, "k", False], [nrec + 1, "k+1", True], [2, 3, False]]
-        yield "unordered", {"n": n, "symm": symm, "chunkings": chunkings, "params": params if thorough else rng.sample(params, 4),
+        params = [[1, 200, False], [2, 1, False], [3, 2, True], [nrec, "k", False], [nrec + 1, "k+1", True], [2, 3, False],
+                  [2, 200, True, True], [1, 2, True, True]]   # last two: ensure_sorted with every validation check off
+        yield "unordered", {"n": n, "symm": symm, "chunkings": chunkings,
+                            "params": params if thorough else rng.sample(params[:6], 3) + [rng.choice(params[6:])],
                             "layout": gen.split_layout(rng, n)}
     for _ in range(20 if thorough else 5):
         n = rng.randint(2, 5)
